@@ -36,7 +36,7 @@ var tMigrate = map[string][]migRow{
 		{"delete", "notary", 17000, "leave non-notary mode"}, {"delete", "ballots", 17000, "purge finished votes"},
 		{"put", "proxyScriptHash", 17000, "remember the Proxy contract"}, {"transfer", "*", 17000, "documented 75% GAS split on notarisation"},
 	},
-	"audit":   {{"delete", "notary", 17000, ""}, {"delete", "netmapScriptHash", 17000, ""}},
+	"audit": {{"delete", "notary", 17000, ""}, {"delete", "netmapScriptHash", 17000, ""}},
 	"balance": {{"delete", "notary", 17000, ""}, {"delete", "ballots", 17000, ""}, {"delete", "netmapScriptHash", 17000, ""}, {"delete", "containerScriptHash", 17000, ""},
 		{"put", "a*", 20000, "move accounts under the 'a' prefix"}, {"delete", "<scanned>", 20000, "move accounts under the 'a' prefix"}},
 	"container": {{"delete", "notary", 17000, ""}, {"delete", "ballots", 17000, ""},
@@ -45,7 +45,7 @@ var tMigrate = map[string][]migRow{
 	"netmap": {{"put", "snapshot_*", 16000, "rewrite legacy snapshots in place"}, {"put", "<scanned>", 16000, "rewrite candidates in place"},
 		{"delete", "notary", 17000, ""}, {"delete", "innerring", 17000, ""}, {"delete", "ballots", 17000, ""},
 		{"put", "e*", 19000, "subscribe balance/container"}, {"delete", "balanceScriptHash", 19000, ""}, {"delete", "containerScriptHash", 19000, ""}},
-	"nns": {{"put", "<scanned>", 18000, "TLD owners become nil"}, {"put", "\x01*", 18000, "updateBalance(-1)"}, {"delete", "\x01*", 18000, "updateBalance(-1)"}, {"delete", "\x02*", 18000, "updateBalance(-1)"}},
+	"nns":        {{"put", "<scanned>", 18000, "TLD owners become nil"}, {"put", "\x01*", 18000, "updateBalance(-1)"}, {"delete", "\x01*", 18000, "updateBalance(-1)"}, {"delete", "\x02*", 18000, "updateBalance(-1)"}},
 	"reputation": {{"delete", "notary", 17000, ""}, {"delete", "ballots", 17000, ""}},
 	"neofs":      {},
 	"processing": {},
